@@ -462,7 +462,9 @@ pub fn fma_overflow_edge_triple(r: &mut Rng) -> (u128, u128, u128) {
     let pe = top - k;
     let e1 = (pe / 2 + r.range(-50, 50) as i32).clamp(EMIN, EMAX);
     let e2 = (pe - e1).clamp(EMIN, EMAX);
-    let delta = 33 + r.below(5) as i32;                    // the addend's leading digit stands at 10^(top − delta)
+    // the addend's leading digit stands at 10^(top − delta): mostly just below the product's 34-digit window, else anywhere inside it
+    // (the second pass of Cases (2)–(6) after the operand swap, with the product's exponent above emax)
+    let delta = if r.chance(1, 2) { 33 + r.below(5) as i32 } else { r.below(41) as i32 };
     let q = 1 + r.below(34) as u32;
     let half = 5 * pow10(q - 1);
     let cz = match r.below(7) { 0 => half, 1 => half + 1, 2 => if q > 1 { half - 1 } else { 4 }, 3 => pow10(q) - 1, 4 => pow10(q - 1), 5 => 9 * pow10(q - 1), _ => coeff(r, q) };
@@ -470,9 +472,31 @@ pub fn fma_overflow_edge_triple(r: &mut Rng) -> (u128, u128, u128) {
     (enc(r.chance(1, 2), c1, e1), enc(r.chance(1, 2), c2, e2), enc(r.chance(1, 2), cz, ez))
 }
 
+/// The product's exponent e1 + e2 OUTSIDE the format's range while the addend overlaps its digits: the routine swaps the roles and
+/// runs its case analysis with an "addend" whose exponent is above emax or below emin (where D19, D21, D22 sat).  A short product
+/// (≤ 34 digits) at an exponent a few decades beyond either end, and an addend of either sign whose leading digit stands anywhere from
+/// two places above the product's to 36 below.
+pub fn fma_out_of_range_product_triple(r: &mut Rng) -> (u128, u128, u128) {
+    let q1 = 1 + r.below(17) as u32; let q2 = 1 + r.below(17) as u32;
+    let (c1, c2) = match r.below(4) { 0 => (pow10(q1 - 1), pow10(q2 - 1)), 1 => (coeff(r, q1), pow10(q2 - 1)), _ => (coeff(r, q1), coeff(r, q2)) };
+    let qp = ndigits(c1 * c2) as i32;
+    let high = r.chance(1, 2);
+    // exponent of the product
+    let pe = if high { EMAX + 1 + r.below(45) as i32 } else { EMIN - 1 - r.below(45) as i32 };
+    let e1 = (pe / 2 + r.range(-40, 40) as i32).clamp(EMIN, EMAX);
+    let e2 = (pe - e1).clamp(EMIN, EMAX);
+    let lead = qp - 1 + e1 + e2;                                  // position of the product's leading digit
+    let off = r.range(-2, 36) as i32;
+    let q3 = 1 + r.below(34) as u32;
+    let c3 = match r.below(5) { 0 => pow10(q3 - 1), 1 => pow10(q3) - 1, 2 => 5 * pow10(q3 - 1), _ => coeff(r, q3) };
+    let e3 = (lead - off - (q3 as i32 - 1)).clamp(EMIN, EMAX);
+    (enc(r.chance(1, 2), c1, e1), enc(r.chance(1, 2), c2, e2), enc(r.chance(1, 2), c3, e3))
+}
+
 pub fn fma_triple(r: &mut Rng) -> (u128, u128, u128) {
     if r.chance(1, 16) { return fma_half_quantum_triple(r); }
     if r.chance(1, 16) { return fma_overflow_edge_triple(r); }
+    if r.chance(1, 12) { return fma_out_of_range_product_triple(r); }
     match r.below(15) {
         13 | 14 => fma_subnormal_product_triple(r),
         10 | 11 | 12 => fma_tail_triple(r),
